@@ -38,12 +38,132 @@ def _conds(stmt, stop):
     return out
 
 
+class _Sink:
+    """stand-in for the shared /dev/null text stream"""
+
+    def __init__(self, state):
+        self.state = state
+
+    @property
+    def closed(self):
+        if self.state == "detached":
+            raise ValueError("underlying buffer has been detached")
+        return self.state == "closed"
+
+
+def _sink(ctx, repo, enter) -> None:
+    """__enter__ interpreted with the shared sink usable, closed (sys.stdout.close()) and detached
+    (sys.stdout.detach()) by an earlier test case: it returns normally with sys.stdout / sys.stderr bound to a
+    usable sink - the shared one, or a freshly opened one that later executions share."""
+    import types as _types
+
+    from sa.engine import peval
+
+    cres = peval.repo_class_resolver(repo)
+    mod = repo.module(ISO)
+    for state in ("usable", "closed", "detached"):
+        label = f"[sink {state}]"
+        shared = _Sink(state)
+        opened = []
+
+        def open_(*a, _o=opened, **k):
+            _o.append(_Sink("usable"))
+            return _o[-1]
+
+        sysmod = _types.SimpleNamespace(stdout="<stdout>", stderr="<stderr>", __stdout__="<stdout>", __stderr__="<stderr>")
+        stores = {}
+        it = peval.Interp(resolver=peval.repo_resolver(repo), class_resolver=cres, native_types=(_Sink, _types.SimpleNamespace), on_store=lambda k, v, _s=stores: _s.__setitem__(k, v),
+                          externs={"open": open_, "os.dup": lambda fd: 100 + fd, "os.close": lambda fd: None}, consts={"logging.root.manager.disable": 0, "os.devnull": "/dev/null"})
+        it.class_store[OSC, "_null_file"] = shared
+        obj = it.instantiate(OSC, cres(OSC, mod), [], {}, init=False)
+        obj.fields.update({"_saved_fds": {}, "_saved_logging_disable": None, "_restored": False})
+        try:
+            obj.methods["__enter__"]()
+        except peval.Undecided as exc:
+            ctx.undecide("C30.sink", enter, f"{label}: {exc}")
+            continue
+        except peval.Raises as exc:
+            ctx.fail("C30.sink", enter, f"{label}: entering the output suppression raises {exc.name} ({exc.detail[:60]}) after an earlier test case left the shared sink {state}: every later execution fails in its worker thread and is reported as a timeout (results depend on which tests ran before)", stmt=label)
+            continue
+        out, err = stores.get("sys.stdout"), stores.get("sys.stderr")
+        now_shared = it.class_store.get((OSC, "_null_file"))
+        usable = isinstance(out, _Sink) and out.state == "usable" and out is err
+        kept = (out is shared and not opened) if state == "usable" else (bool(opened) and out is opened[-1] and now_shared is out)
+        ctx.check("C30.sink", enter, usable and kept, f"{label}: after __enter__ sys.stdout is {getattr(out, 'state', out)!r}, sys.stderr {getattr(err, 'state', err)!r}, sinks opened {len(opened)}, shared sink replaced: {now_shared is not shared}: the streams of the executed code must be one usable sink - the shared one while it is usable, else a new one that becomes the shared sink", what=f"{label} streams redirected to a usable shared sink", stmt=label)
+
+
+def _roundtrip(ctx, repo, restore) -> None:
+    """__enter__ -> (the executed code changes the process state) -> restore(), interpreted over a model of
+    the process: every facet of the standard streams and of the logging state is as before."""
+    import contextlib
+    import types as _types
+
+    from sa.engine import peval
+
+    cres = peval.repo_class_resolver(repo)
+    mod = repo.module(ISO)
+
+    class Root:
+        def __init__(self):
+            self.level = 30
+            self.manager = _types.SimpleNamespace(disable=0)
+
+        def setLevel(self, level):  # noqa: N802
+            self.level = level
+
+    root = Root()
+    sysmod = _types.SimpleNamespace(stdout="<stdout>", stderr="<stderr>", stdin="<stdin>", __stdout__="<stdout>", __stderr__="<stderr>", __stdin__="<stdin>")
+    fds = {0: "in", 1: "out", 2: "err"}
+    dups = {}
+
+    def dup(fd):
+        n = 100 + len(dups)
+        dups[n] = fds.get(fd)
+        return n
+
+    def dup2(src, dst):
+        fds[dst] = dups.get(src, fds.get(src))
+
+    def on_store(key, value):
+        if key.startswith("sys."):
+            setattr(sysmod, key[4:], value)
+
+    it = peval.Interp(resolver=peval.repo_resolver(repo), class_resolver=cres, native_types=(_Sink, _types.SimpleNamespace, Root, type(contextlib.nullcontext())), on_store=on_store,
+                      externs={"open": lambda *a, **k: _Sink("usable"), "os.dup": dup, "os.dup2": dup2, "os.close": lambda fd: dups.pop(fd, None), "logging.disable": lambda level=50: setattr(root.manager, "disable", level),
+                               "contextlib.suppress": lambda *a: contextlib.nullcontext()},
+                      consts={"sys": sysmod, "logging.root": root, "os.devnull": "/dev/null"})
+    it.class_store[OSC, "_null_file"] = _Sink("usable")
+    obj = it.instantiate(OSC, cres(OSC, mod), [], {}, init=False)
+    try:
+        init = repo.func(ISO, f"{OSC}.__init__")
+        it2 = peval.Interp(resolver=peval.repo_resolver(repo), class_resolver=cres, externs={"threading.Lock": lambda: contextlib.nullcontext()}, native_types=(type(contextlib.nullcontext()),))
+        fresh = it2.instantiate(OSC, cres(OSC, mod), [], {})
+        obj.fields.update(fresh.fields)
+        before = {"sys.stdin": sysmod.stdin, "sys.stdout": sysmod.stdout, "sys.stderr": sysmod.stderr, "logging threshold (logging.disable)": root.manager.disable, "level of the root logger": root.level, "file descriptors 0-2": dict(fds)}
+        obj.methods["__enter__"]()
+        # what a test case may do
+        sysmod.stdin, sysmod.stdout, sysmod.stderr = "<SUT stdin>", "<SUT stdout>", "<SUT stderr>"
+        root.manager.disable, root.level = 40, 50
+        fds.update({0: None, 1: None, 2: None})
+        obj.methods["restore"]()
+    except peval.Undecided as exc:
+        ctx.undecide("C30.roundtrip", restore, str(exc))
+        return
+    except peval.Raises as exc:
+        ctx.fail("C30.roundtrip", restore, f"enter / restore raises {exc.name} ({exc.detail[:60]})", stmt="[raises]")
+        return
+    after = {"sys.stdin": sysmod.stdin, "sys.stdout": sysmod.stdout, "sys.stderr": sysmod.stderr, "logging threshold (logging.disable)": root.manager.disable, "level of the root logger": root.level, "file descriptors 0-2": dict(fds)}
+    for facet, was in before.items():
+        ctx.check("C30.roundtrip", restore, after[facet] == was, f"{facet}: {was!r} before the execution, {after[facet]!r} after a test case changed it and the context was left: Pynguin's process state is not as before (a test case that rebinds sys.stdin, or calls logging.getLogger().setLevel(...), affects everything that runs later)", what=f"{facet} as before", stmt=f"[{facet}]")
+
+
 def check(ctx) -> None:
     repo = ctx.repo
     ctx.rule("C30.restore-saved", "the value written back to a process global on exit originates from a read of that global made on entry", floor=4)
     ctx.rule("C30.unconditional", "restoring writes do not depend on the state the executed code left behind; they are guarded only by the idempotence flag / `saved is not None`", floor=3)
     ctx.rule("C30.all-exits", "restore happens on every exit: __exit__ calls restore(), generator context managers restore in finally, the executor restores on its timeout path", floor=4)
-    ctx.rule("C30.sink", "the shared /dev/null sink is re-opened on entry when a previous test case closed it", floor=1)
+    ctx.rule("C30.sink", "ABSINT: __enter__ interpreted with the shared /dev/null sink usable, closed and detached by an earlier test case: returns normally with both streams on one usable sink, re-opening and re-sharing it when needed", floor=3)
+    ctx.rule("C30.roundtrip", "ABSINT: __enter__, then a test case that rebinds the three standard streams, raises the logging threshold and the root level and closes fds 0-2, then restore(), interpreted over a model of the process: stdin, stdout, stderr, threshold, root level and fds are as before", floor=6)
     ctx.rule("C30.reseed", "SUT random generators are reseeded before every execution (the reseed dominates the first executed statement), with the configured seed, excluding Pynguin's own generator", floor=4)
 
     mod = repo.module(ISO)
@@ -129,10 +249,8 @@ def check(ctx) -> None:
     ctx.check("C30.all-exits", w or etc, ok, "statements are not executed inside `with FilesystemIsolation(), output_suppression_context, tracer`", what="statements run inside the isolation contexts")
 
     # ------------------------------------------------------------------ C30.sink
-    t = [n for n in own_nodes(enter) if isinstance(n, ast.If) and norm(n.test) == "self._null_file.closed"]
-    redirect = [n for n in own_nodes(enter) if isinstance(n, ast.Assign) and norm(n.targets[0]) == "sys.stdout"]
-    ok = len(t) == 1 and bool(redirect) and t[0].lineno < redirect[0].lineno and any(isinstance(x, ast.Call) and norm(x.func) == "open" for x in ast.walk(t[0]))
-    ctx.check("C30.sink", enter, ok, "the shared output sink is not re-opened when a previous test case closed it: every later test case that prints raises ValueError (results depend on which tests ran before)", what="closed sink re-opened before the redirection")
+    _sink(ctx, repo, enter)
+    _roundtrip(ctx, repo, restore)
 
     # ------------------------------------------------------------------ C30.reseed
     md = repo.func(ISO, "_make_deterministic")
